@@ -28,6 +28,18 @@ CLAIMED = {
             "The watermark is only ever advanced to max(old, id of a trial returned by the incremental fetch issued with the entry's current watermark and unfinished set); both outcomes of is_finished() are handled; only finished trials are served from cache; get_all_trials syncs before serving and sorts by number; RDB SQL, RDB fallback and gRPC servicer filters use the same accepted comparison shapes; delete invalidates. Exhaustive over all writers of the watermark/unfinished set in both caches. Decides preservation of the cache invariant by every writer, not inter-client staleness windows.",
             "Trusts that the backend fetch returns all trials matching the predicate; provenance depth 3.",
             "DESIGN.md §3 C08"),
+    "C06": ("non-interference analysis: exclusive-region reachability at issuer tests on the CFG, boolean-helper outcome summaries, local taint from worker-local/ambient sources, per-iteration dominance, who-may-call/who-may-write censuses",
+            "Replicated fields of the replay result are never written on only one side of an issuer test nor from worker-local/ambient values; explicit raises are issuer-only and happen before any replicated write; the cursor is advanced before dispatch and loop locals do not cross records; snapshots pickle exactly the replay result and restore resets every worker-local field; records are applied only from what was read back. Exhaustive over all ten handlers and helpers. Decides that replayed state is a function of the record sequence alone (who applies, batching, snapshot start); not that backends deliver the same sequence.",
+            "Trusts dict insertion order and that decoding helpers are total on repo-written records; the worker-local field table is frozen in rules/c06.py.",
+            "DESIGN.md §3 C06"),
+    "C04": ("finite-domain exploration of the compare-and-set guard over TrialState x TrialState on each backend's CFG; branch-edge dominance for claim-result use and suggest priority; zero-count who-may-call rule with fixture",
+            "WAITING->RUNNING is a compare-and-set in in-memory, RDB and journal (all 25 requested/stored state pairs explored per backend: the state write is unreachable for finished trials and for RUNNING requests on non-WAITING trials, losers get False), the only claimer branches on the result before the id escapes, nothing re-queues by writing WAITING, the in-memory WAITING cursor only moves to the first WAITING trial found, journal ownership is written only by the issuer on the successful transition, and _suggest gives fixed parameters priority and passes them verbatim. Decides presence of these mechanisms on all paths, not starvation freedom.",
+            "Trial existence is assumed when its state is tested; helper models (check_trial_is_updatable raises iff finished) are themselves checked (R19.3).",
+            "DESIGN.md §3 C04"),
+    "C19": ("branch-edge dominance per loop iteration on the CFG (append only after truthy CAS), exception-edge routing to handler arms, finite-domain CAS exploration, keyword provenance",
+            "fail_stale_trials runs the failure callback only for ids whose set_trial_state_values(id, FAIL) returned True, tolerates UpdateFinishedTrialError, hands over a deep copy; the CAS (row lock, finished guard, write) exists on every heartbeat-capable storage; the stale query only returns RUNNING trials of the study with a heartbeat strictly older than the grace period; the retry callback appends history before the max_retry test and rebuilds the trial unchanged; optimize sweeps before ask. Decides the at-most-once mechanism on all paths; not DB-clock behaviour or crashes between CAS and callback.",
+            "Trusts SQL row locks and that finished trials raise UpdateFinishedTrialError (checked in R19.3 for the base guard).",
+            "DESIGN.md §3 C19"),
 }
 
 NOT_APPLICABLE = {
